@@ -394,6 +394,34 @@ def step (w : World) (line : String) : World × String :=
     match rest with
     | fn :: args => (w, "ok " ++ hxItem (encodeCall (unhxD fn) (args.map unhxD)))
     | _ => (w, "badop")
+  else if cmd == "buildseq" then
+    -- one builder object driven through a sequence of its methods (txDataBuilder/builder.go): the state is the function
+    -- name and the element list; a read is `function ++ "@" ++ element ...` / the last element
+    let stepB (st : Option (Bytes × List Bytes × List String)) (tok : String) : Option (Bytes × List Bytes × List String) :=
+      match st with
+      | none => none
+      | some (fn, els, reads) =>
+        let (kind, arg) := match tok.splitOn ":" with
+          | [k] => (k, "")
+          | k :: rest => (k, joinWith ":" rest)
+          | [] => ("", "")
+        if kind == "f" then some (unhxD arg, els, reads)
+        else if kind == "b" || kind == "s" then some (fn, els ++ [hexEncode (unhxD arg)], reads)
+        else if kind == "y" then (if (unhxD arg).length == 1 then some (fn, els ++ [hexEncode (unhxD arg)], reads) else none)
+        else if kind == "i" then some (fn, els ++ [hexEncode (beBytes (parseInt arg).natAbs)], reads)
+        else if kind == "t" then some (fn, els ++ [hexEncode (ascii "true")], reads)
+        else if kind == "x" then some (fn, els ++ [hexEncode (ascii "false")], reads)
+        else if kind == "c" then some ([], [], reads)
+        else if kind == "l" then
+          (match els.reverse with
+           | [] => some (fn, [unhxD arg], reads)
+           | _ :: r => some (fn, (unhxD arg :: r).reverse, reads))
+        else if kind == "r" then some (fn, els, reads ++ [hxItem (fn ++ (els.flatMap fun e => (64 : UInt8) :: e))])
+        else if kind == "g" then some (fn, els, reads ++ [hxItem (els.getLast?.getD [])])
+        else none
+    match rest.foldl stepB (some ([], [], [])) with
+    | some (_, _, reads) => (w, if reads.isEmpty then "ok" else "ok " ++ joinWith "," reads)
+    | none => (w, "badop")
   else if cmd == "enctoken" then
     match rest with
     | [t] =>
